@@ -250,6 +250,20 @@ func TestVerifC09(t *testing.T) {
 		{name: "unknownlabel", text: "  unknownlabel:\n    runs-on: [self-hosted, nosuch, NoSuch, bigmemx]\n    steps:\n      - run: echo\n"},
 		{name: "hosted", text: "  hosted:\n    runs-on: [Ubuntu-Latest, bigmem]\n    steps:\n      - run: echo\n        shell: pwsh\n"},
 	}})
+	// jobs under a workflow-level default shell: which tool sees a job's scripts is decided by the
+	// step, the job and the workflow header only, whatever job was visited before
+	shellItems := []c09Item{
+		{name: "jrun", text: "  jrun:\n    runs-on: ubuntu-latest\n    steps:\n      - run: import os\n      - run: echo $FOO\n"},
+		{name: "jrun2", text: "  jrun2:\n    runs-on: ubuntu-latest\n    steps:\n      - run: print(x)\n"},
+		{name: "jdefbash", text: "  jdefbash:\n    runs-on: ubuntu-latest\n    defaults:\n      run:\n        shell: bash\n    steps:\n      - run: echo $FOO\n"},
+		{name: "jdefpython", text: "  jdefpython:\n    runs-on: ubuntu-latest\n    defaults:\n      run:\n        shell: python\n    steps:\n      - run: import os\n"},
+		{name: "jstepshells", text: "  jstepshells:\n    runs-on: ubuntu-latest\n    steps:\n      - run: echo $FOO\n        shell: sh\n      - run: import os\n        shell: python\n      - run: echo\n        shell: pwsh\n"},
+		{name: "jwindows", text: "  jwindows:\n    runs-on: windows-latest\n    steps:\n      - run: echo $FOO\n"},
+		{name: "jcall", text: "  jcall:\n    uses: owner/repo/.github/workflows/w.yml@v1\n"},
+	}
+	for _, sh := range []string{"python", "bash", "pwsh"} {
+		families = append(families, &c09Family{name: "default-shell-" + sh, header: "on: push\ndefaults:\n  run:\n    shell: " + sh + "\njobs:\n", items: shellItems})
+	}
 	// expression family: each expression is its own step (separate strings)
 	ex := &c09Family{name: "exprs", header: "on: pull_request\njobs:\n  j:\n    runs-on: ubuntu-latest\n    strategy:\n      matrix:\n        os: [a]\n        z: [[1, 2]]\n    steps:\n      - id: a\n        run: echo\n"}
 	for i, e := range c09Exprs {
@@ -313,7 +327,7 @@ func TestVerifC09(t *testing.T) {
 	aloneCache := map[string][]string{}
 	var idx int64
 	for _, f := range families {
-		maxLen := map[string]int{"jobs": jobLen, "steps": stepLen, "exprs": exprLen, "call-jobs": 4, "label-jobs": 4}[f.name]
+		maxLen := map[string]int{"jobs": jobLen, "steps": stepLen, "exprs": exprLen, "call-jobs": 4, "label-jobs": 4, "default-shell-python": 3, "default-shell-bash": 3, "default-shell-pwsh": 3}[f.name]
 		c09Sequences(len(f.items), maxLen, func(sel []int) bool {
 			idx++
 			if !r.Mine(idx) {
@@ -339,7 +353,7 @@ func TestVerifC09(t *testing.T) {
 				return true
 			}
 			for k, it := range seq {
-				aseq := f.alone(seq, k, f.name != "jobs" && f.name != "call-jobs" && f.name != "label-jobs")
+				aseq := f.alone(seq, k, !strings.Contains(f.name, "jobs") && !strings.HasPrefix(f.name, "default-shell"))
 				var names []string
 				pos := 0
 				for i, a := range aseq {
